@@ -59,7 +59,8 @@ class TimedTask {
     DISPENSO_VERIF_POINT("TtCancelStoreTimes", impl_.get());
     impl_->timesToRun.store(0, std::memory_order_release);
     DISPENSO_VERIF_POINT("TtCancelSetFlag", impl_.get());
-    impl_->flags.fetch_or(detail::kFFlagsCancelled, std::memory_order_release);
+    // seq_cst: pairs with kickOffTask's increment of inProgress followed by its load of flags.
+    impl_->flags.fetch_or(detail::kFFlagsCancelled, std::memory_order_seq_cst);
   }
 
   /**
@@ -96,7 +97,7 @@ class TimedTask {
     }
     cancel();
     DISPENSO_VERIF_POINT("TtDtorLoadInProgress", impl_.get());
-    while (impl_->inProgress.load(std::memory_order_acquire)) {
+    while (impl_->inProgress.load(std::memory_order_seq_cst)) {
       DISPENSO_VERIF_POINT("TtDtorLoadInProgress", impl_.get());
     }
     // Now we can safely destroy the underlying function.  We do this here because we can't risk
